@@ -786,7 +786,7 @@ def gen_collect(seed):
     return p.lines
 
 
-G = ["1", "1/2", "2", "1/4", "4", "-1", "1/8"]
+G = ["1", "1/2", "2", "1/4", "4", "-1", "1/8", "0"]      # incl. a step of length 0
 G_SCALED = ["1/1073741824", "1073741824", "1/1099511627776", "1048576", "1", "1/2"]       # 2^-30, 2^30, 2^-40, 2^20
 def gen_steps(seed):
     rnd = random.Random(seed); p = Prog(rnd)
@@ -1055,7 +1055,7 @@ LAST_TAINTED = set()
 _PAIR = re.compile(r"([A-Za-z0-9_]+):(-?\d+(?:/\d+)?)(?=[,}])")
 _EX_CALLS = None
 def example_calls():
-    """the parameter tuples of the shipped examples: those of the test-suite, 283 neighbouring ones and 208 far ones"""
+    """the parameter tuples of the shipped examples: those of the test-suite, 283 neighbouring ones, 209 far ones and 165 boundary ones"""
     global _EX_CALLS
     if _EX_CALLS is None:
         here = os.path.dirname(os.path.abspath(__file__))
@@ -1064,6 +1064,8 @@ def example_calls():
         calls += [dict(module=c["module"], func=c["func"], args=c["args"]) for c in json.load(open(os.path.join(here, "ref_neighbours.json")))]
         far = os.path.join(here, "ref_far.json")        # tuples far from the suite's: 12 to 16 iterations, L = 3, step 1 / L (mk_neighbours.py far)
         if os.path.exists(far): calls += [dict(module=c["module"], func=c["func"], args=c["args"]) for c in json.load(open(far)) if c.get("seconds", 0) <= 30]
+        edge = os.path.join(here, "ref_edge.json")      # tuples at the boundary: n = 0, 1, 2 and mu = 0 (mk_neighbours.py edge)
+        if os.path.exists(edge): calls += [dict(module=c["module"], func=c["func"], args=c["args"]) for c in json.load(open(edge))]
         _EX_CALLS = calls
     return _EX_CALLS
 
@@ -1097,7 +1099,7 @@ def example_program(c):
 
 
 def gen_examples(seed):
-    """a REAL program: one of the 595 parameter tuples of the shipped examples"""
+    """a REAL program: one of the 760 parameter tuples of the shipped examples"""
     calls = example_calls()
     return example_program(calls[(seed * 7919) % len(calls)])
 
